@@ -145,6 +145,8 @@ structure S where
   cons : Spec.Cons Float := []
   startVal : Option Float := none
   curInit : Option Float := none
+  /-- the optimiser's current value after the previous init / step / optimize -/
+  lastCur : Option Float := none
   inactive : Bool := true
   implDead : Bool := false
 
@@ -406,8 +408,8 @@ def verdictRun (s : S) (o : String) (t : List String) : S × String :=
   else
   let pvals := (section_ t "P" markers).filterMap pF
   let fvals := (section_ t "F" markers).filterMap pF
-  let s1 := { s1 with fpoint := fvals }
   let cur := ((field t "cur=").bind pF).getD (0.0 / 0.0)
+  let s1 := { s1 with fpoint := fvals, lastCur := some cur }
   -- feasibility of every evaluation and of the reported point
   if s.pol != .ignore && !Spec.feasibleLog s.cons log then
     (s1, if s.pol == .auto then "FAIL:auto_policy_feasible" else "FAIL:keep_policy_feasible") else
@@ -424,6 +426,11 @@ def verdictRun (s : S) (o : String) (t : List String) : S × String :=
     ({ s1 with curInit := some cur, startVal := some start }, "ok")
   else
   let ret := (field t "v=").bind pF
+  -- no call ends above the value the previous call ended on (every `doStep` of these optimisers returns
+  -- a value not above the current one: `*_step_descent`; the golden section search only as a whole run,
+  -- Newton backtracking reports its trials)
+  let mono := s.kind != "nback" && (o == "optimize" || s.kind != "gss")
+  if mono && !Spec.descent cur (s.lastCur.getD (1.0 / 0.0)) then (s1, "FAIL:step_descent") else
   if o == "step" then (s1, "ok") else
   -- optimize
   if ret != none && !(ret.getD 0 == cur) then (s1, "FAIL:returned_is_current") else
